@@ -126,6 +126,9 @@ OpFails(mb, uop, res, o, po, exact, drift) ==
           Fail(r.ok /\ r.idx = m2.acked, "C20:decode-equals-history"),
           IF uop.op \in {"reopen", "ckpt"} THEN Fail(Stable(o, po), "C02:changed-by-" \o uop.op) ELSE {},
           IF uop.op = "abort" THEN Fail(Stable(o, po) /\ DiskSame(o.disk, po.disk), "C13:abort-left-trace") ELSE {},
+          \* "leaves no trace" inside the process too: the staging file's descriptor is closed again
+          \* (fds = descriptors open on staging files, unlinked ones included; none is open between calls)
+          Fail(o.fds = 0, "C13:staging-descriptor-left-open"),
           IF uop.op = "rddrain" THEN Fail(res.ok /\ res.val = ResVal(m2), "C06:reader-did-not-stream-the-original-content") ELSE {},
           IF drift THEN Fail(d = DiskOf(m2), "DRIFT:disk-after-op") ELSE {},
           IF drift THEN Fail(o.ixsz = o.disk.ixfile, "DRIFT:index-size-stat") ELSE {}
